@@ -43,6 +43,9 @@ class DealLoader:
         return getattr(self._loader, name)
 
     def exec_module(self, module: ModuleType) -> None:
+        if not state.debug:
+            # contracts are disabled
+            return self._loader.exec_module(module)
         if not hasattr(self._loader, 'get_source'):
             return self._loader.exec_module(module)
 
